@@ -45,11 +45,13 @@ def epTemplate (r : Rng) : Rng × Rules.Pos :=
   let (r, f) := r.below 8
   let (r, side) := r.below 2
   let cf := if f = 0 then 1 else if f = 7 then 6 else if side = 0 then f - 1 else f + 1
-  let b := empty.set! (sqAt cf 4) (some ⟨.pawn, .white⟩)
+  -- one time in five there is no capturer: a FEN may name a target that no pawn can take
+  let (r, lone) := r.below 5
+  let b := if lone = 0 then empty else empty.set! (sqAt cf 4) (some ⟨.pawn, .white⟩)
   let b := b.set! (sqAt f 4) (some ⟨.pawn, .black⟩)
   -- second capturer sometimes
   let (r, two) := r.below 4
-  let b := if two = 0 && f > 0 && f < 7 then putIfEmpty b (sqAt (2 * f - cf) 4) ⟨.pawn, .white⟩ else b
+  let b := if two = 0 && lone ≠ 0 && f > 0 && f < 7 then putIfEmpty b (sqAt (2 * f - cf) 4) ⟨.pawn, .white⟩ else b
   -- lines of interest: rank 5; diagonals through capturer, target and victim
   let anchor (r : Rng) : Rng × Nat :=
     let (r, which) := r.below 5
@@ -106,13 +108,62 @@ def promoTemplate (r : Rng) : Rng × Rules.Pos :=
   let (r, b) := scatter r b n
   (r, { board := b, player := .white, rights := Rights.none, ep := none, halfmove := 0, plies := 60 })
 
+/-- white king boxed in a corner by its own men and checked by a knight (no interposition): the legal
+    moves are captures only — of the knight, by men of different values, the knight often protected — so
+    the quiet stages of a picker find nothing while good and bad captures exist -/
+def boxedCheckTemplate (r : Rng) : Rng × Rules.Pos :=
+  let empty : Rules.RBoard := Vector.replicate 64 none
+  let (r, corner) := r.below 2
+  let kf := if corner = 0 then 7 else 0
+  let inner := if corner = 0 then 6 else 1
+  let b := empty.set! (sqAt kf 0) (some ⟨.king, .white⟩)
+  let (r, g1) := r.below 3
+  let b := putIfEmpty b (sqAt inner 0) ⟨if g1 = 0 then .bishop else if g1 = 1 then .rook else .knight, .white⟩
+  let b := putIfEmpty b (sqAt kf 1) ⟨.pawn, .white⟩
+  let (r, gp) := r.below 4
+  let b := if gp = 0 then putIfEmpty b (sqAt inner 1) ⟨.bishop, .white⟩ else putIfEmpty b (sqAt inner 1) ⟨.pawn, .white⟩
+  -- the checking knight: (kf∓1, 2) or (kf∓2, 1)
+  let (r, which) := r.below 2
+  let nf := if which = 0 then (if corner = 0 then 6 else 1) else (if corner = 0 then 5 else 2)
+  let nr := if which = 0 then 2 else 1
+  let ns := sqAt nf nr
+  let b := b.set! ns (some ⟨.knight, .black⟩)
+  -- protectors of the knight
+  let (r, prot) := r.below 4
+  let b := if prot = 0 then b else
+    if prot = 1 then putIfEmpty b (sqAt nf 7) ⟨.rook, .black⟩
+    else if prot = 2 then putIfEmpty b (sqAt (if nf + 1 < 8 then nf + 1 else nf - 1) (nr + 1)) ⟨.pawn, .black⟩
+    else putIfEmpty b (sqAt (if corner = 0 then nf - (7 - nr) else nf + (7 - nr)) 7) ⟨.bishop, .black⟩
+  -- white attackers of the knight, of assorted values
+  let (r, na) := r.below 3
+  let rec attackers (fuel : Nat) (r : Rng) (b : Rules.RBoard) : Rng × Rules.RBoard :=
+    match fuel with
+    | 0 => (r, b)
+    | fuel+1 =>
+      let (r, k) := r.below 4
+      let (r, d) := r.below 5
+      let d := d + 1
+      let b := match k with
+        | 0 => putIfEmpty b (sqAt nf (nr + d)) ⟨.queen, .white⟩                                   -- on the file
+        | 1 => putIfEmpty b (sqAt (if corner = 0 then nf - d else nf + d) nr) ⟨.rook, .white⟩     -- on the rank
+        | 2 => putIfEmpty b (sqAt (if corner = 0 then nf - d else nf + d) (nr + d)) ⟨.queen, .white⟩  -- diagonal
+        | _ => putIfEmpty b (sqAt (if corner = 0 then nf - 2 else nf + 2) (nr + 1)) ⟨.knight, .white⟩
+      attackers fuel r b
+  let (r, b) := attackers (na + 1) r b
+  let (r, bk) := r.below 64
+  let b := putIfEmpty b (sqAt (bk % 8) (4 + bk / 8 % 4)) ⟨.king, .black⟩
+  let (r, extra) := r.below 3
+  let (r, b) := scatter r b extra
+  (r, { board := b, player := .white, rights := Rights.none, ep := none, halfmove := 3, plies := 50 })
+
 def hasBothKings (p : Rules.Pos) : Bool :=
   Rules.count p.board (· == ⟨.king, .white⟩) == 1 && Rules.count p.board (· == ⟨.king, .black⟩) == 1
 
 /-- a legal template position (both colours: every second one is mirrored) -/
 def templatePos (r : Rng) : Rng × Option Rules.Pos :=
-  let (r, which) := r.below 10
-  let (r, p) := if which < 6 then epTemplate r else if which < 8 then castleTemplate r else promoTemplate r
+  let (r, which) := r.below 12
+  let (r, p) := if which < 6 then epTemplate r else if which < 8 then castleTemplate r
+    else if which < 10 then promoTemplate r else boxedCheckTemplate r
   let (r, mir) := r.below 2
   let p := if mir = 0 then p else mirrorPos p
   (r, if hasBothKings p && Rules.legalPos p then some p else none)
